@@ -721,6 +721,24 @@ func (r *Run) runHandlerOps(ctx context.Context, stream grpc.ServerStream) {
 					}
 				}
 			}()
+		case "bg-pusher":
+			// a helper goroutine of the handler that pushes copies of the message; the handler does NOT wait for it
+			// (it may be blocked inside SendMsg when the handler returns; its sends end with an error after that)
+			if stream == nil {
+				continue
+			}
+			msg := op.Msg
+			go func() {
+				for j := 0; j < 4; j++ {
+					r.rec(Event{Who: "hb", Op: "send", Call: true, Msg: msg})
+					var err error
+					pan := guard(func() { err = stream.SendMsg(msg) })
+					r.rec(Event{Who: "hb", Op: "send", Msg: msg, Err: err, Pan: pan})
+					if err != nil || pan != "" {
+						return
+					}
+				}
+			}()
 		case "bg-sends":
 			// a second goroutine of the handler pushes three copies of the message while the handler itself goes
 			// on with its next operations (a full-duplex handler); the handler waits for it before returning
